@@ -7,7 +7,7 @@ import pandas as pd
 
 import bt
 
-from .. import common, instrument as ins, mon1, mon2, w2
+from .. import common, instrument as ins, mon1, mon2, w2, w5
 from . import _w2case
 
 ID = "C04"
@@ -26,11 +26,12 @@ WINDOWED = ["SelectHasData", "SelectMomentum", "SetStat", "WeighInvVol", "WeighE
 
 def plan(tier):
     q = tier == "quick"
-    return [dict(unit="w2", n=260 if q else 2500, builds=["py"] if q else ["py", "so"], case_timeout=300, params={"cuts": 3 if q else 6})]
+    return [dict(unit="w2", n=260 if q else 2500, builds=["py"] if q else ["py", "so"], case_timeout=300, params={"cuts": 3 if q else 6}),
+            dict(unit="w5", n=120 if q else 2500, builds=["py"] if q else ["py", "so"], case_timeout=300, params={"cuts": 3 if q else 6})]
 
 
 def floors(tier):
-    c = {"cuts_compared": 400, "spy_records_compared": 5000, "frames_compared": 2000}
+    c = {"cuts_compared": 400, "spy_records_compared": 5000, "frames_compared": 2000, "fi_cuts_compared": 200}
     for a in WINDOWED:
         c["algo_" + a] = 8 if a in ("PTE_Rebalance", "UpdateRisk", "HedgeRisks") else 20
     return {"min_decided": 150, "counters": c, "max_undecided_frac": 0.3}
@@ -102,7 +103,70 @@ def perturb(df, t, rs, boolish, kind="scale"):
     return df
 
 
+def run_w5(cs, params):
+    """fixed-income backtests: prices, coupons, holding costs, bid/offer and the notional schedule dated after t are replaced"""
+    ins.install()
+    ins.reset()
+    spec = w5.gen(cs)
+    sig = ["w5"] + w5.signature(spec)
+    base = w5.run_backtest(spec)
+    cnt = {}
+    if base.exc is not None:
+        if isinstance(base.exc, ZeroDivisionError) or common.is_guard_exc(base.exc):
+            return common.result(common.OOD, sig=sig, why="zero notional / sizing guard")
+        return common.result(common.INC, sig=sig, why="bt raised %s: %s" % (type(base.exc).__name__, str(base.exc)[:100]))
+    f0 = mon2.all_frames(base.root)
+    dates = list(base.bt.dates)
+    t0 = [(e["sec"].full_name, e["date"], e["q"], e["p"], e["cp"]) for e in base.events if e["k"] == "trade"]
+    rng = random.Random(cs ^ 0xC04)
+    n = len(dates)
+    cuts = sorted(set([1, n - 2] + [rng.randint(1, n - 2) for _ in range(max(0, int(params.get("cuts", 3)) - 2))]))
+    nt = False
+    for k, ci in enumerate(cuts):
+        t = dates[ci]
+        rs = np.random.RandomState((cs + 7919 * k) % (2 ** 32))
+        sp = dict(spec)
+        i0 = ci            # rows of the un-extended frames dated after t start at index ci (the backtest index has one synthetic row in front)
+        for key in ("prices", "coupons", "cost_long", "cost_short", "bidoffer"):
+            if spec.get(key) is None:
+                continue
+            a = np.array(spec[key], dtype=float)
+            if key == "prices":
+                pos = a[i0:] > 0
+                a[i0:] = np.where(pos, a[i0:] * np.exp(rs.randn(*a[i0:].shape) * 0.05), a[i0:] + rs.randn(*a[i0:].shape) * 0.3 * (a[i0:] != 0))
+            else:
+                a[i0:] = np.abs(rs.rand(*a[i0:].shape)) * (a.max() if a.max() > 0 else 0.01)
+            sp[key] = a.tolist()
+        idx_dates = list(pd.date_range(spec["start"], periods=spec["nd"], freq="B"))
+        sp["nv"] = [(v if idx_dates[r] <= t else float(rs.choice([1e5, 3e5, 7e4]))) for v, r in zip(spec["nv"], spec["nv_rows"])]
+        sp["hedge_trades"] = [tr for tr in spec["hedge_trades"]]
+        ins.reset()
+        alt = w5.run_backtest(sp)
+        common.bump(cnt, "fi_cuts_compared")
+        common.bump(cnt, "cuts_compared")
+        w = {"cut": str(t), "cut_index": ci, "case_seed": cs, "kinds": spec["kinds"], "fixed_income": True}
+        last_alt = mon2.last_row(alt.root) if alt.root is not None else -1
+        if alt.exc is not None and last_alt <= ci:
+            return common.result(common.VIOL, sig=sig, nt=True, cnt=cnt, mech="c04_future_data_breaks_past",
+                                 witness=dict(w, exception="%s: %s" % (type(alt.exc).__name__, str(alt.exc)[:160])))
+        f1 = mon2.all_frames(alt.root)
+        common.bump(cnt, "frames_compared", len(f0))
+        d = ins.first_frame_diff(f0, f1, upto=ci + 1)
+        if d:
+            return common.result(common.VIOL, sig=sig, nt=True, cnt=cnt, mech="c04_frames", witness=dict(w, **d))
+        t1 = [(e["sec"].full_name, e["date"], e["q"], e["p"], e["cp"]) for e in alt.events if e["k"] == "trade"]
+        a_ = [tuple(map(str, x)) for x in t0 if x[1] <= t]
+        b_ = [tuple(map(str, x)) for x in t1 if x[1] <= t]
+        if a_:
+            nt = True
+        if a_ != b_:
+            return common.result(common.VIOL, sig=sig, nt=True, cnt=cnt, mech="c04_trades", witness=dict(w, trades_base=len(a_), trades_perturbed=len(b_)))
+    return common.result(common.HELD, sig=sig, nt=nt, cnt=cnt, sample=w5.sample_of(spec))
+
+
 def run_case(unit, cs, idx, build, params):
+    if unit == "w5":
+        return run_w5(cs, params)
     ins.install()
     ins.reset()
     spec = w2.gen(cs, risk=0.15)
